@@ -115,13 +115,12 @@ impl Interpreter {
                 state.stack.push_bytes(a);
             }
             OpCodes::OP_IFDUP => {
-                let predicate = state.stack.pop_bool()?;
-                if predicate {
-                    let top_data = match state.stack.last().cloned() {
-                        Some(v) => v,
-                        None => return Err(InterpreterError::EmptyStack),
-                    };
+                let top_data = match state.stack.last().cloned() {
+                    Some(v) => v,
+                    None => return Err(InterpreterError::EmptyStack),
+                };
 
+                if stack_trait::to_bool(&top_data) {
                     state.stack.push(top_data);
                 }
             }
